@@ -195,6 +195,8 @@ def make (c):
                     d [x] = float (10 ** rng.uniform (lo, hi))
             if d ['R'] is None and d ['L'] is None and d ['C'] is None:
                 d ['L'] = 1e-6
+            if d ['R'] is None and (c ['i'] + k) % 2:
+                d ['R'] = 0.0       # no resistor, written as a zero (the program writes it as an empty first field)
             loads.append (d)
         elif kind == 'trap':
             loads.append (dict (k = 'trap', R = float (10 ** rng.uniform (-1, 1)), L = float (10 ** rng.uniform (-7, -5)), C = float (10 ** rng.uniform (-12, -10)), att = forms))
